@@ -43,7 +43,8 @@ def get_core_features(feature_model: FeatureModel) -> list[Feature]:
     while features:
         feature = features.pop()
         for relation in feature.get_relations():
-            if relation.is_mandatory():
+            # All children are forced: mandatory ([1..1] on one child) or a group [n..n] of n
+            if relation.card_min >= len(relation.children):
                 core_features.extend(relation.children)
                 features.extend(relation.children)
 
